@@ -4,12 +4,15 @@ import importlib
 import os
 
 from . import build as B
+from .integrated import CLAIMED
 
 
 def quick_targets():
     seen = set()
     out = []
     for f in sorted(glob.glob(os.path.join(B.VERIF, "vf", "checks", "c[0-9][0-9].py"))):
+        if os.path.basename(f)[:-3].upper() not in CLAIMED:
+            continue
         m = importlib.import_module("vf.checks." + os.path.basename(f)[:-3])
         if not getattr(m, "CLAIM", None):
             continue
